@@ -387,6 +387,22 @@ pub fn insert_symmetry_bias(ops: &mut Vec<Op>, w: &mut Rng) {
         let pos = w.below(ops.len() + 1);
         ops.insert(pos, Op::new("union").t(leaf.clone()).t(t).i(w.below(2) as i64));
     }
+    {
+        // (own stream) parents that pin one slot of the symmetric leaf by a slot of their own, before
+        // or after the child (g / gr), in two orientations that the symmetry makes equal or not
+        let mut pr = Rng::stream(w.next(), "pinning-parents");
+        if pr.chance(1, 2) {
+            let name = if pr.chance(1, 2) { "gr" } else { "g" };
+            for _ in 0..pr.range(1, 2) {
+                let mut v = base.clone();
+                pr.shuffle(&mut v);
+                let pin = *pr.pick(&base);
+                let t = Tm::node(name, vec![pin], vec![(vec![], Tm::leaf(&format!("p{k}"), v))]);
+                let pos = pr.below(ops.len() + 1);
+                ops.insert(pos, Op::new("add").t(t));
+            }
+        }
+    }
     if w.chance(1, 2) {
         let mut v = base.clone();
         v.swap(0, k - 1);
